@@ -804,7 +804,10 @@ def run_shard(shard, ctx):
         bound, mx = None, None
     elif r.startswith('bootstrap_testset'):
         # leaving out >= 3 conditions needs >= 3 deviations from the identity draw
-        bound, mx = (3 if ctx.tier == 'quick' else 4), 20000
+        bound, mx = (3 if ctx.tier == 'quick' else 4), (6000 if ctx.tier == 'quick' else 20000)
+        # the answers fixed by the shard's root (the first two RDM draws) do not use up the budget: an RDM
+        # has to be left out AND three conditions for a resample to be evaluable
+        bound += sum(1 for c in shard['root'] if c)
     elif r.startswith('eval_bootstrap'):
         bound, mx = (None, 40000) if (_is_full(cfg) or cfg.get('menu3')) else ((1 if ctx.tier == 'quick' else 2), 6000)
     elif r == 'crossval':
